@@ -88,9 +88,27 @@ static void support_search(const std::string &hay, const int32_t *key, int len, 
     }
 }
 
+// origin 0: key set as generated. origin 1: the cloud key re-created (tfhe_createLweBootstrappingKey) from a secret key set that
+// was exported and imported first - a client that stores only its secret key and regenerates the evaluation key on demand.
+static int key_origin = 0;
 static void check_keyset(const TFheGateBootstrappingParameterSet *gb, const std::string &cfg, int stride, bool eval, bool support = true) {
     VH_OP("keygen:%s", cfg.c_str());
     TFheGateBootstrappingSecretKeySet *sk = new_random_gate_bootstrapping_secret_keyset(gb);
+    if (key_origin == 1) {
+        VH_OP("regenerate-cloud-key-from-imported-secret-key:%s", cfg.c_str());
+        std::string S0 = to_stream_bytes([&](std::ostream &o) { export_tfheGateBootstrappingSecretKeySet_toStream(o, sk); });
+        delete_gate_bootstrapping_secret_keyset(sk);
+        std::istringstream is(S0, std::ios::binary);
+        TFheGateBootstrappingSecretKeySet *imp = new_tfheGateBootstrappingSecretKeySet_fromStream(is);
+        LweBootstrappingKey *bk = new_LweBootstrappingKey(imp->params->ks_t, imp->params->ks_basebit, imp->params->in_out_params, imp->params->tgsw_params);
+        tfhe_createLweBootstrappingKey(bk, imp->lwe_key, imp->tgsw_key);
+        LweBootstrappingKeyFFT *bkf = new_LweBootstrappingKeyFFT(bk);
+        sk = new TFheGateBootstrappingSecretKeySet(imp->params, bk, bkf, imp->lwe_key, imp->tgsw_key);
+        // the imported shell's own evaluation key is released; the shell object itself is abandoned (its keys now belong to sk)
+        delete_LweBootstrappingKeyFFT((LweBootstrappingKeyFFT *) imp->cloud.bkFFT); delete_LweBootstrappingKey((LweBootstrappingKey *) imp->cloud.bk);
+        gb = sk->params;
+        out.cell("origin:cloud-key-regenerated-from-imported-secret-key");
+    }
     const int n = gb->in_out_params->n, N = gb->tgsw_params->tlwe_params->N, k = gb->tgsw_params->tlwe_params->k, l = gb->tgsw_params->l;
     const int t = gb->ks_t, bb = gb->ks_basebit, base = 1 << bb, kpl = (k + 1) * l;
     VH_OP("export:%s", cfg.c_str());
@@ -141,6 +159,26 @@ static void check_keyset(const TFheGateBootstrappingParameterSet *gb, const std:
         for (uint64_t r = 0; r < (uint64_t) n * kpl; r++) for (int q = 0; q < k; q++) {
             uint64_t h = fnv1a(bkb + (r * (k + 1) + q) * N * 4, 4 * N); rowsn++;
             if (seen2.count(h)) dup2++; else seen2[h] = r;
+        }
+        // a row must not be decodable without its mask: with the mask ignored (as if the secret key were zero) the body of a proper
+        // encryption is uniform, so it agrees with the row's plaintext (key bit times the row's gadget value) only by chance
+        {
+            uint64_t ks_rows = 0, ks_hit = 0, bk_rows = 0, bk_hit = 0;
+            for (int i = 0; i < k * N; i++) { int bit = sk->tgsw_key->tlwe_key.key[i / N].coefs[i % N];
+                for (int j = 0; j < t; j++) for (int h = 1; h < base; h++) { uint64_t r = ((uint64_t) i * t + j) * base + h; int32_t b; memcpy(&b, ksb + r * (n + 1) * 4 + 4 * n, 4);
+                    U msg = (U) bit * (U) h * ((U) 1 << (32 - (j + 1) * bb)); int32_t d = (int32_t) ((U) b - msg); ks_rows++; if (d > -(1 << 22) && d < (1 << 22)) ks_hit++; } }
+            for (int i = 0; i < n; i++) { int bit = sk->lwe_key->key[i];
+                for (int blk = 0; blk <= k; blk++) for (int j = 0; j < l; j++) { uint64_t r = (uint64_t) i * kpl + blk * l + j; int32_t b0; memcpy(&b0, bkb + (r * (k + 1) + blk) * N * 4, 4);
+                    U msg = (U) bit * (U) gb->tgsw_params->h[j]; int32_t d = (int32_t) ((U) b0 - msg);
+                    if (blk == k) { bk_rows++; if (d > -(1 << 22) && d < (1 << 22)) bk_hit++; } } }
+            // chance level 2^-9 per row; alarm when more than 2 % + 8 standard errors of the rows agree
+            auto too_many = [](uint64_t hit, uint64_t rows) { double p = 1.0 / 512; return rows >= 64 && hit > 0.02 * rows + rows * p + 8 * sqrt(rows * p); };
+            out.evaluations += 2;
+            int lwe_weight = 0; for (int i = 0; i < n; i++) lwe_weight += sk->lwe_key->key[i] != 0;
+            if (lwe_weight == 0) ks_hit = 0;      // an all-zero LWE key (possible for n = 1, 2) applies no mask by definition
+            if (too_many(ks_hit, ks_rows)) out.viol("cloud:key-switching-rows-readable-without-the-mask", J().s("config", cfg).u("rows", ks_rows).u("rows_whose_body_alone_is_the_plaintext", ks_hit));
+            if (too_many(bk_hit, bk_rows)) out.viol("cloud:bootstrapping-rows-readable-without-the-mask", J().s("config", cfg).u("rows", bk_rows).u("rows_whose_body_alone_is_the_plaintext", bk_hit));
+            out.stat(J().s("kind", "mask-applied").s("config", cfg).u("ks_rows", ks_rows).u("ks_rows_readable_without_mask", ks_hit).u("bk_rows", bk_rows).u("bk_rows_readable_without_mask", bk_hit));
         }
         out.evaluations += rowsn;
         if (dup) out.viol("cloud:key-switching-rows-share-a-mask", J().s("config", cfg).u("rows_with_a_repeated_mask", dup).u("first_such_row", first_dup).u("rows", (uint64_t) k * N * t * (base - 1)));
@@ -224,6 +262,7 @@ int main(int argc, char **argv) {
         // key-switching tables far larger than the default one (24576 encrypted rows): 76800, 67584 and 71680 rows
         static const C large[] = {{12, 1, 2, 8, 5, 4, false}, {8, 2, 2, 8, 11, 2, false}, {10, 1, 2, 8, 10, 3, false}};
         const bool lg = args.i("large", 0);
+        key_origin = args.i("origin", 0);
         for (int i = 0; i < count && i < (lg ? 3 : 8); i++) {
             const C &c = lg ? large[i] : cfgs[i];
             PSet ps(c.n, 1024, c.k, c.l, c.Bgbit, c.t, c.bb, ldexp(1., -20), ldexp(1., -30));
